@@ -60,7 +60,7 @@ class Topo:
     def kinds(self):
         return sorted({k for ls in self.links for _, k in ls})
 
-    def source(self, future, nested=False, flavour="dc"):
+    def source(self, future, nested=False, flavour="dc", callable_=False):
         """nested=True: every class is defined inside `class Outer:` and referred to as Outer.C<i>.
         flavour: dc (dataclass) | td (TypedDict, total=False) | nt (typing.NamedTuple) | init (plain class, hinted only by its `__init__`)."""
         lines = ["from __future__ import annotations"] if future else []
@@ -114,6 +114,8 @@ class Topo:
                 if k == "member":
                     tq = f"{q}C{t} | None" if future else f'"{q}C{t} | None"'
                     helpers.append(f"@dataclasses.dataclass\nclass {hname}:\n    x: {tq} = None\n")
+            if callable_ and flavour == "dc":
+                body.append("    def __call__(self):  # instances are callable (a handler / command object); the class is data all the same\n        return self.v")
             classes.append("\n".join(body) + "\n")
         body = "\n".join(helpers) + "\n" + "\n".join(classes) + "\n" + "\n".join(post) + "\n"
         if nested:
